@@ -33,6 +33,9 @@ TRUSTED = ["CPython 3.12 dataclasses module as the property oracle (run, not mod
            "gcc as a conforming C compiler for the generated modules"]
 ASSUMPTIONS = ["CPython 3.12 dataclasses semantics", "no inheritance between dataclasses, no ClassVar, no KW_ONLY sentinel, no slots"]
 
+# flags to flip after the proposed fixes are applied to the tree (env C30_FX_<NAME>=1 overrides)
+FX = {"HASH_IS_NONE": os.environ.get("C30_FX_HASH_IS_NONE", "0")}     # proposed_fixes/C30-hash_ignores_compare_false.diff
+
 OPT_NAMES = ["init", "repr", "eq", "order", "unsafe_hash", "frozen", "match_args", "kw_only"]
 OPT_DEFAULT = dict(init=True, repr=True, eq=True, order=False, unsafe_hash=False, frozen=False, match_args=True, kw_only=False)
 FNAMES = ["a", "b", "c", "d", "e"]
@@ -80,8 +83,7 @@ def rand_field(rng, name, rich):
         f.update(iv=True, typ="object", repr=True, cmp=True, hash=None)
         if f["d"] == "f" and not (rich and rng.random() < 0.2):
             f["d"] = "v"
-        if rng.random() < 0.9:
-            f["init"] = True
+        f["init"] = True       # InitVar with init=False: the generated __init__ names an unbound variable on both sides
     return f
 
 
@@ -632,6 +634,8 @@ def classify(case, comp):
         return "hash_none_with_user_eq_treated_explicit"
     if comp == "match" and not o["kw_only"] and any(not f["init"] for f in fs):
         return "match_args_includes_init_false"
+    if comp == "hash" and any((not f["iv"]) and f["hash"] is None and not f["cmp"] for f in fs):
+        return "hash_ignores_compare_false"
     if comp == "body" and any((not f["iv"]) and (not f["init"]) and f["d"] == "n" for f in fs):
         return "init_false_no_default_reads_zero"
     return "decision_mismatch_" + comp
@@ -651,7 +655,7 @@ def level1(ctx, tagged_cases):
     wd = os.path.join(ctx.workdir, "l1")
     os.makedirs(wd, exist_ok=True)
     cases = [c for _, c in tagged_cases]
-    per = 120
+    per = 60
     mods = []
     for k in range(0, len(cases), per):
         src, spans = cy_module(cases[k:k + per])
@@ -659,10 +663,23 @@ def level1(ctx, tagged_cases):
         with open(p, "w") as f:
             f.write(src)
         mods.append({"src": p, "spans": spans, "first": k})
-    res = cybuild.run_script(L1_RUNNER, wd, {"modules": [{"src": m["src"]} for m in mods]}, timeout=3000, name="l1_runner.py")
-    if res["json"] is None:
-        ctx.corr_break("level1 runner", "l1_runner.py", (res["err"] or res["out"])[-1500:], "a JSON result")
-        return None
+    import concurrent.futures as cf
+    nproc = min(8, len(mods))
+    chunks = [mods[k::nproc] for k in range(nproc)]
+
+    def one(k):
+        return cybuild.run_script(L1_RUNNER, os.path.join(wd, "p%d" % k), {"modules": [{"src": m["src"]} for m in chunks[k]]},
+                                  timeout=3000, name="l1_runner.py")
+    with cf.ThreadPoolExecutor(max_workers=nproc) as ex:
+        rr = list(ex.map(one, range(nproc)))
+    by_src = {}
+    for k, r in enumerate(rr):
+        if r["json"] is None:
+            ctx.corr_break("level1 runner", "l1_runner.py", (r["err"] or r["out"])[-1500:], "a JSON result")
+            return None
+        for m, x in zip(chunks[k], r["json"]):
+            by_src[m["src"]] = x
+    res = {"json": [by_src[m["src"]] for m in mods]}
     cy_obs = [None] * len(cases)
     for m, r in zip(mods, res["json"]):
         if r["crash"]:
@@ -684,7 +701,7 @@ def level1(ctx, tagged_cases):
         ctx.corr_break("python oracle", "py_oracle.py", (pres["err"] or pres["out"])[-1500:], "a JSON result")
         return None
     model = ctx.model("dataclass")
-    mcy = model.batch([model_line("cy", c) for c in cases])
+    mcy = model.batch([model_line("cy" + FX["HASH_IS_NONE"], c) for c in cases])
     mpy = model.batch([model_line("py", c) for c in cases])
     decs = []
     for i, (tag, c) in enumerate(tagged_cases):
@@ -847,5 +864,276 @@ def run(ctx):
     level2(ctx, tagged, decs)
 
 
+L2_WORKER = r"""
+import sys, json, dataclasses, importlib, copy
+from dataclasses import MISSING
+def tval(typ, i):
+    return {"object": 10 + i, "int": 10 + i, "double": 10.5 + i, "str": "s%d" % i}[typ]
+def norm(e):
+    return "AttributeError" if isinstance(e, AttributeError) else type(e).__name__
+def ops(cls, case, LOG):
+    out = []
+    name = cls.__name__
+    real = [f for f in case["fields"] if not f["iv"]]
+    P = [f for f in case["fields"] if f["init"]]
+    def snap(x):
+        r = []
+        for f in real:
+            try: r.append(repr(getattr(x, f["name"])))
+            except AttributeError: r.append("<unset>")
+        return r
+    def tr(fn):
+        del LOG[:]
+        try:
+            v = fn()
+            return ["ok", v, repr(LOG)]
+        except BaseException as e:
+            return ["exc", norm(e)]
+    def add(op, fn):
+        out.append([op, tr(fn)])
+    add("is_dataclass", lambda: dataclasses.is_dataclass(cls))
+    add("match_args", lambda: repr(getattr(cls, "__match_args__", "<none>")))
+    add("params", lambda: repr(cls.__dataclass_params__))
+    add("fields", lambda: [[f.name, f.init, f.repr, f.compare, f.hash, f.default is MISSING, f.default_factory is MISSING,
+                            f._field_type.name] for f in dataclasses.fields(cls)])
+    add("fields_kw_only", lambda: [[f.name, f.kw_only if isinstance(f.kw_only, bool) else "MISSING"] for f in dataclasses.fields(cls)])
+    n = len(P)
+    for k in range(n + 2):
+        add("construct/pos%d" % k, lambda: snap(cls(*[tval(P[i]["typ"] if i < n else "object", i) for i in range(k)])))
+    allkw = {f["name"]: tval(f["typ"], i) for i, f in enumerate(P)}
+    add("construct/kw-all", lambda: snap(cls(**allkw)))
+    for f in P:
+        kw = dict(allkw); del kw[f["name"]]
+        add("construct/kw-omit-" + f["name"], lambda: snap(cls(**kw)))
+    if n >= 2:
+        h = n // 2
+        add("construct/mixed", lambda: snap(cls(*[tval(P[i]["typ"], i) for i in range(h)], **{P[i]["name"]: tval(P[i]["typ"], i) for i in range(h, n)})))
+    add("construct/kw-unknown", lambda: snap(cls(zz=1, **allkw)))
+    def mk(changed=None, j=7):
+        kw = dict(allkw)
+        if changed is not None:
+            f = [g for g in P if g["name"] == changed][0]
+            kw[changed] = tval(f["typ"], j)
+        return cls(**kw)
+    try:
+        x0 = mk(); x0b = mk()
+    except BaseException:
+        return out
+    add("repr", lambda: repr(x0).replace(name, "CLS"))
+    add("str", lambda: str(x0).replace(name, "CLS"))
+    import operator
+    OPS = [("eq", operator.eq), ("ne", operator.ne), ("lt", operator.lt), ("le", operator.le), ("gt", operator.gt), ("ge", operator.ge)]
+    for on, of in OPS:
+        add("cmp/%s/copy" % on, lambda: repr(of(x0, x0b)))
+        add("cmp/%s/self" % on, lambda: repr(of(x0, x0)))
+        add("cmp/%s/other-type" % on, lambda: repr(of(x0, 5)))
+        for f in P:
+            if f["iv"]:
+                continue
+            for j in (0, 7):       # smaller / larger than the base value of any field
+                y = mk(f["name"], j)
+                add("cmp/%s/%s/%d" % (on, f["name"], j), lambda: repr(of(x0, y)))
+                add("cmp/%s/%s/%d/rev" % (on, f["name"], j), lambda: repr(of(y, x0)))
+    def hprobe():
+        h = hash(x0)
+        if h == hash(x0b):
+            return ["value", h]
+        return ["identity"]
+    add("hash", hprobe)
+    for f in P:
+        if not f["iv"]:
+            add("hash/changed-" + f["name"], lambda: hash(mk(f["name"])) == hash(x0))
+    add("asdict", lambda: repr(dataclasses.asdict(x0)))
+    add("astuple", lambda: repr(dataclasses.astuple(x0)))
+    if P:
+        f = P[0]
+        add("replace", lambda: repr(dataclasses.replace(x0, **{f["name"]: tval(f["typ"], 3)})).replace(name, "CLS"))
+    add("replace/none", lambda: repr(dataclasses.replace(x0)).replace(name, "CLS"))
+    add("copy", lambda: repr(copy.copy(x0)).replace(name, "CLS") if case["opts"]["repr"] else "-")
+    for f in real:
+        if case["opts"]["frozen"]:
+            add("frozen/del-" + f["name"], lambda: delattr(mk(), f["name"]))
+        def st():
+            x = mk(); setattr(x, f["name"], tval(f["typ"], 9)); return snap(x)
+        add(("frozen" if case["opts"]["frozen"] else "mutable") + "/set-" + f["name"], st)
+    return out
+spec = json.load(sys.stdin)
+res = []
+for m in spec["modules"]:
+    try:
+        cm = importlib.import_module(m["name"])
+    except BaseException as e:
+        res.append({"import_error": "%s: %s" % (type(e).__name__, str(e)[:500])}); continue
+    per = []
+    for j, (case, pysrc) in enumerate(m["classes"]):
+        ns = {"__name__": "pyside"}
+        exec(pysrc, ns)
+        try:
+            a = ops(getattr(cm, "C%d" % j), case, cm._LOG)
+            b = ops(ns["C%d" % j], case, ns["_LOG"])
+            per.append({"cy": a, "py": b})
+        except BaseException as e:
+            import traceback
+            per.append({"harness_error": traceback.format_exc()[-800:]})
+    res.append({"classes": per})
+print(json.dumps(res))
+"""
+
+SPECIAL_WORKER = r"""
+import sys, json, dataclasses
+import c30_special as cm
+from dataclasses import dataclass, field
+@dataclass(order=True)
+class S:
+    a: object
+    b: object = 0
+def tr(fn):
+    try: return repr(fn())
+    except BaseException as e: return "exc:" + type(e).__name__
+nan = float("nan")
+out = {}
+for nm, cls in (("cy", cm.S), ("py", S)):
+    out[nm] = {
+      "none_le_none": tr(lambda: cls(None) <= cls(None)),
+      "none_ge_none": tr(lambda: cls(None) >= cls(None)),
+      "none_first_then_int_lt": tr(lambda: cls(None, 1) < cls(None, 2)),
+      "int_then_none_lt": tr(lambda: cls(1, None) < cls(2, None)),
+      "complex_le": tr(lambda: cls(1j) <= cls(1j)),
+      "nan_same_object_eq": tr(lambda: cls(nan) == cls(nan)),
+      "nan_same_object_le": tr(lambda: cls(nan) <= cls(nan)),
+      "nan_different_objects_eq": tr(lambda: cls(float("nan")) == cls(float("nan"))),
+      "sets_lt": tr(lambda: cls({1}) < cls({1, 2})),
+      "sets_le_incomparable": tr(lambda: cls({1}) <= cls({2})),
+      "list_lt": tr(lambda: cls([1, 2]) < cls([1, 3])),
+      "mixed_types_eq": tr(lambda: cls(1) == cls("1")),
+      "mixed_types_lt": tr(lambda: cls(1) < cls("1")),
+      "bool_int_eq": tr(lambda: cls(True) == cls(1)),
+      "float_int_hash_eq": tr(lambda: cls(1.0) == cls(1)),
+    }
+print(json.dumps(out))
+"""
+
+SPECIAL_SRC = "\n".join(CY_HEADER + ["@dataclass(order=True)", "cdef class S:", "    a: object", "    b: object = 0", ""])
+
+
+def classify_op(case, op):
+    o, u, fs = case["opts"], case["user"], case["fields"]
+    real = [f for f in fs if not f["iv"]]
+    if op == "fields_kw_only":
+        return "fields_kw_only_missing"
+    if op == "match_args":
+        return classify(case, "match")
+    reads = op.split("/")[0] in ("construct", "repr", "str", "cmp", "hash", "asdict", "astuple", "replace", "copy", "frozen", "mutable")
+    if reads and any((not f["init"]) and f["d"] == "n" for f in real):
+        return "init_false_no_default_reads_zero"
+    if op.startswith("hash") and any(f["hash"] is None and not f["cmp"] for f in real):
+        return "hash_ignores_compare_false"
+    if op.startswith("replace") and any(f["iv"] and f["d"] == "v" for f in fs):
+        return "initvar_default_attribute_none"
+    return "behaviour_mismatch_" + op.split("/")[0]
+
+
 def level2(ctx, tagged, decs):
-    pass
+    quick = ctx.tier == "quick"
+    rng = ctx.rng
+    wd = os.path.join(ctx.workdir, "l2")
+    os.makedirs(wd, exist_ok=True)
+    ok = [i for i, d in enumerate(decs or []) if d is not None and d[0]["rej"] == "0" and d[1]["rej"] == "0"
+          and not d[0]["other_errors"]]
+    want = 36 if quick else 330
+    # prefer variety: cases with fields first
+    rng.shuffle(ok)
+    ok.sort(key=lambda i: 0 if tagged[i][1]["fields"] else 1)
+    chosen = ok[:want]
+    per = 6
+    mods = []
+    for k in range(0, len(chosen), per):
+        idx = chosen[k:k + per]
+        cases = [tagged[i][1] for i in idx]
+        src, _ = cy_module(cases)
+        name = "c30_m%d" % (k // per)
+        pys = ["\n".join(PY_HEADER + render(c, "C%d" % j, False)) + "\n" for j, c in enumerate(cases)]
+        mods.append({"name": name, "src": src, "idx": idx, "classes": [[c, p] for c, p in zip(cases, pys)]})
+    specs = [dict(name=m["name"], source=m["src"], workdir=wd, cflags=["-O0"]) for m in mods]
+    specs.append(dict(name="c30_special", source=SPECIAL_SRC, workdir=wd, cflags=["-O0"]))
+    built = cybuild.build_many(specs, jobs=8)
+    good = []
+    for m, (so, err) in zip(mods, built[:-1]):
+        if err is not None:
+            ctx.corr_break("level2 build", {"module": m["name"], "cases": [c for c, _ in m["classes"]]}, str(err)[-1500:],
+                           "builds (level 1 saw no compile error)")
+        else:
+            good.append(m)
+    res = cybuild.run_script(L2_WORKER, wd, {"modules": [{"name": m["name"], "classes": m["classes"]} for m in good]},
+                             timeout=3000, name="l2_worker.py")
+    if res["json"] is None:
+        ctx.corr_break("level2 worker", "l2_worker.py", (res["err"] or res["out"])[-1500:], "a JSON result")
+    else:
+        for m, r in zip(good, res["json"]):
+            if "import_error" in r:
+                ctx.corr_break("level2 import", m["name"], r["import_error"], "importable module")
+                continue
+            for (case, _), i, pc in zip(m["classes"], m["idx"], r["classes"]):
+                inp = {"case": case, "cython_source": "\n".join(render(case, "C", True))}
+                if "harness_error" in pc:
+                    ctx.corr_break("level2 ops", inp, pc["harness_error"], "operations run")
+                    continue
+                a, b = pc["cy"], pc["py"]
+                if [x[0] for x in a] != [x[0] for x in b]:
+                    # different op lists: an instance could be built on one side only
+                    na, nb = [x[0] for x in a], [x[0] for x in b]
+                    ctx.fail(classify_op(case, "construct/kw-all"), inp, {"ops": len(na)}, {"ops": len(nb)}, "instances constructible on one side only")
+                n = 0
+                for (op, ra), (_, rb) in zip(a, b):
+                    n += 1
+                    if ra != rb:
+                        ctx.fail(classify_op(case, op), dict(inp, op=op), {"cython": ra}, {"dataclasses": rb})
+                ctx.count("behaviour/%s" % tagged[i][0], n, distinct_sigs=[(case_key(case), x[0]) for x in a])
+                # tie: behaviour of the compiled class vs the model's decisions
+                m_cy = decs[i][2]
+                obs = dict((x[0], x[1]) for x in a)
+                ma = obs.get("match_args")
+                if ma and ma[0] == "ok" and m_cy["match"] != "-":
+                    exp = [FNAMES[int(t) - 1] for t in m_cy["match"].split(".")] if m_cy["match"] != "_" else []
+                    if ma[1] != repr(tuple(exp)):
+                        ctx.corr_break("cy_match_args(compiled)", inp, ma[1], exp)
+                hp = obs.get("hash")
+                if hp:
+                    kind = "unhashable" if hp[0] == "exc" else hp[1][0]
+                    exp = {"NONE": ["unhashable"], "KEEP": ["identity", "value", "unhashable"], "ERR": []}.get(m_cy["hash"], ["value"])
+                    if kind not in exp:
+                        ctx.corr_break("cy_hash(compiled)", inp, hp, m_cy["hash"])
+                    if m_cy["hash"].startswith("ADD:"):
+                        hn = [FNAMES[int(t) - 1] for t in m_cy["hash"][4:].split(".")] if m_cy["hash"] != "ADD:_" else []
+                        for f in case["fields"]:
+                            r = obs.get("hash/changed-" + f["name"])
+                            if r and r[0] == "ok" and (r[1] is False) != (f["name"] in hn):
+                                ctx.corr_break("cy_hash_names(compiled)", inp, {f["name"]: r}, m_cy["hash"])
+    # special values
+    if built[-1][1] is not None:
+        ctx.corr_break("level2 build special", SPECIAL_SRC, str(built[-1][1])[-800:], "builds")
+        return
+    sres = cybuild.run_script(SPECIAL_WORKER, wd, None, timeout=600, name="special_worker.py")
+    if sres["json"] is None:
+        ctx.corr_break("special worker", "special_worker.py", (sres["err"] or sres["out"])[-1500:], "a JSON result")
+        return
+    model = ctx.model("dataclass")
+    mo = model.batch(["ord le N:N", "ord ge N:N", "ord lt N:N,1:2", "ord lt 1:2,N:N", "equ n7:n7", "equ n7:n8"])
+    exp_model = {"none_le_none": mo[0], "none_ge_none": mo[1], "none_first_then_int_lt": mo[2], "int_then_none_lt": mo[3],
+                 "nan_same_object_eq": mo[4], "nan_different_objects_eq": mo[5]}
+    for k, cyv in sres["json"]["cy"].items():
+        pyv = sres["json"]["py"][k]
+        inp = {"class": "@dataclass(order=True) cdef class S: a: object; b: object = 0", "probe": k}
+        ctx.case("special-values", inp, sig=k)
+        if cyv != pyv:
+            klass = ("order_unorderable_equal_field" if k in ("none_le_none", "none_ge_none", "none_first_then_int_lt", "complex_le")
+                     else "eq_identity_shortcut_missing" if k in ("nan_same_object_eq", "nan_same_object_le")
+                     else "special_value_mismatch")
+            ctx.fail(klass, inp, cyv, pyv)
+        if k in exp_model:
+            mc, mp = exp_model[k].split(" ")
+            conv = {"T": "True", "F": "False", "E": "exc:TypeError", "1": "True", "0": "False"}
+            if conv[mc] != cyv:
+                ctx.corr_break("cy_order/cy_equal(special)", inp, cyv, mc)
+            if conv[mp] != pyv:
+                ctx.corr_break("py_order/py_equal(special)", inp, pyv, mp)
